@@ -10,6 +10,14 @@ Spec:   Observer.tla (requirement machine incl. the statistics counter
         (listed / plain_float / iterable_not_list / rejected) and the reply
         class ok_untyped_real_key; RecorderConversionPartial=TRUE (toyaml()
         raising TypeError for every type outside its list) must fail.
+        ArgShapes rejected_none / rejected_count / rejected_flag: per
+        operation method, from its signature (_add_signature_variants);
+        ResultBoundAfterValidationOnly=TRUE must fail.
+        ObserverAttach.tla: the switching-on phase (order of configure_logger
+        / add_operation_recorder calls = Plans, x509 shape of the connection,
+        detail kind); the two legacy shapes (search stops at the first
+        recorder, repr() needs key_file) must fail.  Observer.tla phase
+        "switch_on": the enabling call itself never fails.
 Binding: every cell <operation (incl. the argument-shape variants generated
         by _add_arg_shape_variants), scripted server behaviour, observer
         configuration> is executed on a real WBEMConnection whose session has a
@@ -18,6 +26,9 @@ Binding: every cell <operation (incl. the argument-shape variants generated
         output go to TLC.
 """
 import base64
+import inspect
+import itertools
+import tempfile
 import datetime as _dt
 import io
 import logging
@@ -95,6 +106,11 @@ def success_body(op, text, realkey=None):
         ret = [X.VALUE_OBJECTWITHPATH(i.path.tocimxml(),
                                       i.tocimxml(ignore_path=True))
                for i in insts]
+    elif op in ("AssociatorNames", "ReferenceNames"):
+        ret = [X.OBJECTPATH(i.path.tocimxml()) for i in insts]
+    elif op in ("CloseEnumeration", "SetQualifier", "DeleteQualifier",
+                "CreateClass", "ModifyClass", "DeleteClass"):
+        return _simple_rsp(X.IMETHODRESPONSE(op, None)).toxml().encode("utf-8")
     elif op == "GetClass":
         cls = CIMClass("VT_Thing", properties=[
             CIMProperty("k", None, type="uint32"),
@@ -112,7 +128,8 @@ def success_body(op, text, realkey=None):
               X.PARAMVALUE("EnumerationContext", None, "string")]
         return _simple_rsp(X.IMETHODRESPONSE(
             op, [X.IRETURNVALUE(ret)] + pv)).toxml().encode("utf-8")
-    elif op == "PullInstancePaths":
+    elif op in ("PullInstancePaths", "OpenEnumerateInstancePaths",
+                "OpenAssociatorInstancePaths", "OpenReferenceInstancePaths"):
         ret = [i.path.tocimxml() for i in insts]
         pv = [X.PARAMVALUE("EndOfSequence", X.VALUE("TRUE"), "boolean"),
               X.PARAMVALUE("EnumerationContext", None, "string")]
@@ -127,7 +144,8 @@ def success_body(op, text, realkey=None):
         ret = [pywbem.CIMQualifierDeclaration(
             "Description", "string", value=text,
             scopes={"CLASS": True, "PROPERTY": True}).tocimxml()]
-    elif op in ("OpenEnumerateInstances", "PullInstancesWithPath"):
+    elif op in ("OpenEnumerateInstances", "PullInstancesWithPath",
+                "OpenAssociatorInstances", "OpenReferenceInstances"):
         ret = [X.VALUE_INSTANCEWITHPATH(i.path.tocimxml(),
                                         i.tocimxml(ignore_path=True))
                for i in insts]
@@ -238,6 +256,7 @@ class ScriptedAdapter(BaseAdapter):
         self.script = None
         self.sent = None
         self.received = None
+        self.creds = True       # False: the connection has no credentials
 
     def send(self, request, **kwargs):
         body = request.body
@@ -247,6 +266,8 @@ class ScriptedAdapter(BaseAdapter):
         self.received = None
         expect = "Basic " + base64.b64encode(
             ("%s:%s" % (USER, PASSWORD)).encode()).decode()
+        if not self.creds:
+            expect = None
         if request.headers.get("Authorization") != expect:
             status, headers, data = 401, {"WWW-Authenticate": "Basic"}, b""
         else:
@@ -480,11 +501,189 @@ def _add_arg_shape_variants():
 _add_arg_shape_variants()
 
 
-def new_conn(stats):
-    conn = pywbem.WBEMConnection(URL, creds=(USER, PASSWORD),
-                                 default_namespace=NS, stats_enabled=stats,
-                                 timeout=5)
+# ---------------------------------------------------------------------------
+# ObserverImpl.ArgShapes rejected_none / rejected_count / rejected_flag: for
+# EVERY operation method a valid base call; from the method's signature one
+# variant per parameter kind of the operations' prologue: None for a required
+# argument, a negative / non-integer count or timeout, a non-boolean flag.
+# A variant is named <Op>.<parameter>~<what>.  Whether the operation rejects
+# the value itself is observed on the bare connection (AUTOCLASS): a value
+# the operation lets through is an accepted argument ("listed").
+# ---------------------------------------------------------------------------
+_CN = CIMClassName("VT_Thing", namespace=NS)
+_KLASS = CIMClass("VT_New", properties=[CIMProperty("k", None,
+                                                    type="uint32")])
+_QDECL = pywbem.CIMQualifierDeclaration("Description", "string",
+                                        scopes={"CLASS": True})
+_CTX = ("ctx-1", NS)
+_WQL = "SELECT * FROM VT_Thing"
+BASE_ARGS = {
+    "EnumerateInstances": dict(ClassName="VT_Thing"),
+    "EnumerateInstanceNames": dict(ClassName="VT_Thing"),
+    "GetInstance": dict(InstanceName=IPATH),
+    "ModifyInstance": dict(ModifiedInstance=CIMInstance(
+        "VT_Thing", properties=[CIMProperty("s", "x")], path=IPATH)),
+    "CreateInstance": dict(NewInstance=CIMInstance(
+        "VT_Thing", properties=[CIMProperty("k", Uint32(1))]), namespace=NS),
+    "DeleteInstance": dict(InstanceName=IPATH),
+    "Associators": dict(ObjectName=IPATH),
+    "AssociatorNames": dict(ObjectName=IPATH),
+    "References": dict(ObjectName=IPATH),
+    "ReferenceNames": dict(ObjectName=IPATH),
+    "InvokeMethod": dict(MethodName="DoIt", ObjectName=_CN),
+    "ExecQuery": dict(QueryLanguage="WQL", Query=_WQL),
+    "OpenEnumerateInstances": dict(ClassName="VT_Thing", MaxObjectCount=10),
+    "OpenEnumerateInstancePaths": dict(ClassName="VT_Thing",
+                                       MaxObjectCount=10),
+    "OpenAssociatorInstances": dict(InstanceName=IPATH, MaxObjectCount=10),
+    "OpenAssociatorInstancePaths": dict(InstanceName=IPATH,
+                                        MaxObjectCount=10),
+    "OpenReferenceInstances": dict(InstanceName=IPATH, MaxObjectCount=10),
+    "OpenReferenceInstancePaths": dict(InstanceName=IPATH,
+                                       MaxObjectCount=10),
+    "OpenQueryInstances": dict(FilterQueryLanguage="WQL", FilterQuery=_WQL,
+                               MaxObjectCount=10),
+    "PullInstancesWithPath": dict(context=_CTX, MaxObjectCount=10),
+    "PullInstancePaths": dict(context=_CTX, MaxObjectCount=10),
+    "PullInstances": dict(context=_CTX, MaxObjectCount=10),
+    "CloseEnumeration": dict(context=_CTX),
+    "EnumerateClasses": dict(),
+    "EnumerateClassNames": dict(),
+    "GetClass": dict(ClassName="VT_Thing"),
+    "ModifyClass": dict(ModifiedClass=_KLASS),
+    "CreateClass": dict(NewClass=_KLASS),
+    "DeleteClass": dict(ClassName="VT_Thing"),
+    "EnumerateQualifiers": dict(),
+    "GetQualifier": dict(QualifierName="Description"),
+    "SetQualifier": dict(QualifierDeclaration=_QDECL),
+    "DeleteQualifier": dict(QualifierName="Description"),
+    "ExportIndication": dict(NewIndication=CIMInstance(
+        "VT_Alert", properties=[CIMProperty("msg", "x")])),
+}
+FLAG_PARAMS = ("LocalOnly", "DeepInheritance", "IncludeQualifiers",
+               "IncludeClassOrigin", "ContinueOnError",
+               "ReturnQueryResultClass")
+COUNT_PARAMS = ("MaxObjectCount", "OperationTimeout")
+AUTOCLASS = set()   # variants whose rejection is observed, not asserted
+
+
+def _add_signature_variants():
+    def call(op, pname, val):
+        return lambda c: getattr(c, op)(**dict(BASE_ARGS[op],
+                                               **{pname: val}))
+    for op in sorted(BASE_ARGS):
+        if op not in OPS:       # every operation also has its plain call
+            OPS[op] = (lambda op: lambda c: getattr(c, op)(
+                **BASE_ARGS[op]))(op)
+        sig = inspect.signature(getattr(pywbem.WBEMConnection, op))
+        for pname, par in sig.parameters.items():
+            if pname == "self" or par.kind in (par.VAR_KEYWORD,
+                                               par.VAR_POSITIONAL):
+                continue
+            muts = []
+            if par.default is par.empty:
+                muts.append(("none", "rejected_none", None))
+            if pname in COUNT_PARAMS:
+                muts += [("negative", "rejected_count", -1),
+                         ("numeral", "rejected_count", "10")]
+            if pname in FLAG_PARAMS:
+                muts += [("word", "rejected_flag", "maybe"),
+                         ("two", "rejected_flag", 2)]
+            for tag, cls, val in muts:
+                name = "%s.%s~%s" % (op, pname, tag)
+                OPS[name] = call(op, pname, val)
+                ARGCLASS[name] = cls
+                AUTOCLASS.add(name)
+
+
+_add_signature_variants()
+
+
+# ---------------------------------------------------------------------------
+# the connection the observers are switched on for (ObserverAttach.X509Shapes
+# and the other constructor arguments repr(conn) renders) and the ORDER in
+# which they are switched on (ObserverAttach.Plans)
+# ---------------------------------------------------------------------------
+X509_SHAPES = ("none", "cert_only", "cert_and_key", "cert_and_null_key")
+OTHER_SHAPES = ("ca_certs", "no_verification", "no_timeout", "no_creds")
+ACTIONS = ("rec", "log_api", "log_http", "log_all", "log_ctor")
+MAX_PLAN = 3
+_FILES = {}
+
+
+def _file(name):
+    if not _FILES:
+        _FILES["dir"] = tempfile.mkdtemp(prefix="c19certs")
+    path = os.path.join(_FILES["dir"], name)
+    if not os.path.exists(path):
+        with open(path, "w") as f:
+            f.write("-----BEGIN CERTIFICATE-----\n")
+    return path
+
+
+def conn_kwargs(shape):
+    kw = dict(creds=(USER, PASSWORD), timeout=5)
+    if shape == "cert_only":
+        kw["x509"] = {"cert_file": _file("client.pem")}
+    elif shape == "cert_and_key":
+        kw["x509"] = {"cert_file": _file("client.pem"),
+                      "key_file": _file("client.key")}
+    elif shape == "cert_and_null_key":
+        kw["x509"] = {"cert_file": _file("client.pem"), "key_file": None}
+    elif shape == "ca_certs":
+        kw["ca_certs"] = _file("ca.pem")
+    elif shape == "no_verification":
+        kw["no_verification"] = True
+    elif shape == "no_timeout":
+        kw["timeout"] = None
+    elif shape == "no_creds":
+        kw["creds"] = None
+    elif shape != "none":
+        raise vlib.MachineryError("connection shape " + shape)
+    return kw
+
+
+def all_plans(n=MAX_PLAN):
+    """ObserverAttach.Plans: sequences of 1..n actions, the test client
+    recorder at most once, activation for future connections only first."""
+    out = []
+    for k in range(1, n + 1):
+        for p in itertools.product(ACTIONS, repeat=k):
+            if p.count("rec") <= 1 and "log_ctor" not in p[1:]:
+                out.append(list(p))
+    return out
+
+
+def default_plan(cfg):
+    return (["log_" + cfg["logger"]] if cfg["logger"] != "none" else []) + (
+        ["rec"] if cfg["recorder"] else [])
+
+
+def draw_plan(cfg, rng):
+    """an order of switching on what the configuration names"""
+    lg = cfg["logger"]
+    logs = []
+    if lg != "none":
+        alts = [["log_" + lg], ["log_" + lg] * 2, ["log_ctor"],
+                ["log_ctor", "log_" + lg]]
+        if lg == "all":
+            alts += [["log_api", "log_http"], ["log_http", "log_api"],
+                     ["log_http", "log_all"]]
+        logs = rng.choice(alts)
+    plan = list(logs)
+    if cfg["recorder"]:
+        lo = 1 if plan[:1] == ["log_ctor"] else 0
+        plan.insert(rng.randint(lo, len(plan)), "rec")
+    return plan
+
+
+
+def new_conn(stats, shape="none"):
+    kw = conn_kwargs(shape)
+    conn = pywbem.WBEMConnection(URL, default_namespace=NS,
+                                 stats_enabled=stats, **kw)
     ad = ScriptedAdapter()
+    ad.creds = kw["creds"] is not None
     conn.session.mount("http://", ad)
     return conn, ad
 
@@ -540,36 +739,99 @@ def reset_loggers():
         lg.setLevel(logging.NOTSET)
 
 
+SWITCH_OK = dict(kind="value", cls="NoneType", val="")
+
+
 class Observed:
     """A connection with one observer configuration; used for a short history
-    of operations (so that the statistics counters form a history)."""
+    of operations (so that the statistics counters form a history).  The
+    observers are switched on in the order of cfg["plan"]
+    (ObserverAttach.Plans); every switching-on call is an event of phase
+    "switch_on" (self.switch)."""
 
     def __init__(self, cfg, workdir, idx, conn=None):
         self.cfg = cfg
-        if conn is not None:
-            self.conn, self.ad = conn, None
-        else:
-            self.conn, self.ad = new_conn(cfg["stats"])
+        self.shape = cfg.get("conn", "none")
+        self.conn, self.ad = conn, None
         self.logfile = os.path.join(workdir, "log%d.txt" % idx)
         self.recfile = os.path.join(workdir, "rec%d.yaml" % idx)
         self.recfp = None
+        self.switch = []
         reset_loggers()
         if os.path.exists(self.logfile):
             os.remove(self.logfile)
-        if cfg["logger"] != "none":
-            pywbem.configure_logger(cfg["logger"], log_dest="file",
-                                    detail_level=cfg["detail"],
-                                    log_filename=self.logfile,
-                                    connection=self.conn)
-        if cfg["recorder"]:
-            self.recfp = open(self.recfile, "w", encoding="utf-8")
-            self.conn.add_operation_recorder(
-                pywbem.TestClientRecorder(self.recfp))
-        if cfg["debug"]:
+        plan = cfg.get("plan")
+        if plan is None:
+            plan = default_plan(cfg)
+        for pos, act in enumerate(plan):
+            if act == "log_ctor":
+                if conn is not None or pos != 0:
+                    raise vlib.MachineryError("plan %r" % (plan,))
+                self._switch(act, pos, self._ctor_with_logging)
+                if self.conn is None:
+                    break       # no connection: nothing to observe
+                continue
+            if self.conn is None:
+                self.conn, self.ad = new_conn(cfg["stats"], self.shape)
+            if act == "rec":
+                self._switch(act, pos, self._add_recorder)
+            elif act in ("log_api", "log_http", "log_all"):
+                self._switch(act, pos,
+                             lambda name=act[4:]: pywbem.configure_logger(
+                                 name, log_dest="file",
+                                 detail_level=cfg["detail"],
+                                 log_filename=self.logfile,
+                                 connection=self.conn))
+            else:
+                raise vlib.MachineryError("plan action %r" % (act,))
+        if self.conn is None and not self.switch:
+            self.conn, self.ad = new_conn(cfg["stats"], self.shape)
+        if cfg["debug"] and self.conn is not None:
             self.conn.debug = True
 
+    def _add_recorder(self):
+        self.recfp = open(self.recfile, "w", encoding="utf-8")
+        self.conn.add_operation_recorder(pywbem.TestClientRecorder(self.recfp))
+
+    def _ctor_with_logging(self):
+        name = self.cfg.get("ctor_logger") or (
+            self.cfg["logger"] if self.cfg["logger"] != "none" else "all")
+        try:
+            pywbem.configure_logger(name, log_dest="file",
+                                    detail_level=self.cfg["detail"],
+                                    log_filename=self.logfile,
+                                    connection=True)
+            self.conn, self.ad = new_conn(self.cfg["stats"], self.shape)
+        finally:
+            # the stored activation is for THIS connection only (the bare
+            # connections of the cells are constructed later)
+            pywbem.configure_logger(name, log_dest=None, connection=False)
+
+    def _switch(self, act, pos, fn):
+        notes = []
+
+        def do(_):
+            fn()
+        obs = outcome_of(do, None, notes)
+        if obs["kind"] == "value":
+            obs = dict(SWITCH_OK)
+        ev = dict(phase="switch_on", op="switch_on:" + act, stats=False,
+                  bare=dict(SWITCH_OK), obs=obs, cnt=0, exc_cnt=0,
+                  raw_req="", wire_req="", raw_reply="", wire_reply="",
+                  pw_hits=pw_hits(self.texts()))
+        inf = dict(op="switch_on.%s" % act, response="switch_on",
+                   cfg=self.cfg, arg="listed", step=pos,
+                   obs_text=notes[0] if notes else "")
+        self.switch.append((ev, inf))
+
     def texts(self):
-        out = [str(self.conn), repr(self.conn)]
+        out = []
+        if self.conn is not None:
+            for f in (str, repr):
+                try:
+                    out.append(f(self.conn))
+                except Exception:  # noqa: judged where logging calls it
+                    pass
         if self.recfp:
             self.recfp.flush()
         for f in (self.logfile, self.recfile):
@@ -654,7 +916,8 @@ def run_nested_history(cfg, workdir, idx):
                  cs="CreateInstance", df_inuse="DeleteInstance",
                  ds="DeleteInstance", df="DeleteInstance",
                  dd="DeleteInstance")
-    events, info = [], []
+    events = [x[0] for x in ob.switch]
+    info = [x[1] for x in ob.switch]
     try:
         for key in ("cf", "cd", "cs", "df_inuse", "ds", "df", "dd"):
             b = outcome_of(lambda c: script(c, key), bare)
@@ -666,7 +929,8 @@ def run_nested_history(cfg, workdir, idx):
                     x["val"] = ""
             cnt, exc_cnt = stat_snapshot(obsc, names[key]) if cfg["stats"] \
                 else (0, 0)
-            events.append(dict(op=names[key], stats=bool(cfg["stats"]),
+            events.append(dict(phase="operation", op=names[key],
+                               stats=bool(cfg["stats"]),
                                bare=b, obs=o, cnt=cnt, exc_cnt=exc_cnt,
                                raw_req="", wire_req="", raw_reply="",
                                wire_reply="", pw_hits=0))
@@ -695,21 +959,26 @@ def stat_snapshot(conn, op):
 
 def run_cell_history(ctx, cfg, cells, workdir, idx):
     ob = Observed(cfg, workdir, idx)
-    events, info = [], []
+    events = [x[0] for x in ob.switch]
+    info = [x[1] for x in ob.switch]
     try:
-        for op, rclass in cells:
-            bare_conn, bare_ad = new_conn(False)
+        for op, rclass in (cells if ob.conn is not None else []):
+            bare_conn, bare_ad = new_conn(False, ob.shape)
             base = op.split(".")[0]
             pick = ctx.rng.randrange(1000)
             bare_ad.script = Script(base, rclass, pick)
             bare = outcome_of(OPS[op], bare_conn)
             ob.ad.script = Script(base, rclass, pick)
+            # "the bytes exchanged" are those of THIS operation: an operation
+            # that fails before it sends anything exchanged none (wire_req "")
+            ob.ad.sent = None
             notes = []
             obs = outcome_of(OPS[op], ob.conn, notes)
             statop = WIRE_NAME.get(base, base)  # name the statistics use
             cnt, exc_cnt = stat_snapshot(ob.conn, statop) if cfg["stats"] \
                 else (0, 0)
-            ev = dict(op=statop, stats=cfg["stats"], bare=bare, obs=obs,
+            ev = dict(phase="operation", op=statop, stats=cfg["stats"],
+                      bare=bare, obs=obs,
                       cnt=cnt,
                       exc_cnt=exc_cnt,
                       raw_req=dg(ob.conn.last_raw_request),
@@ -724,15 +993,17 @@ def run_cell_history(ctx, cfg, cells, workdir, idx):
             if ev["wire_reply"] == "" or ob.conn.last_raw_reply is None:
                 ev["raw_reply"] = ev["wire_reply"] = ""
             events.append(ev)
-            info.append(dict(op=op, response=rclass, cfg=cfg,
-                             arg=ARGCLASS.get(op, "listed"),
+            local = bare["kind"] == "exc" and bare_ad.sent is None
+            argcls = ARGCLASS.get(op, "listed")
+            if op in AUTOCLASS and not local:
+                argcls = "listed"       # the operation lets the value through
+            info.append(dict(op=op, response=rclass, cfg=cfg, arg=argcls,
                              obs_text=notes[0] if notes else ""))
             # the model's classification of the argument shape against the
             # code (binding of ObserverImpl.Core): "rejected" <=> the bare
             # operation raises before anything is sent
-            if (ARGCLASS.get(op) == "rejected") != (
-                    op in ARGCLASS and bare["kind"] == "exc" and
-                    bare_ad.sent is None):
+            if op not in AUTOCLASS and (ARGCLASS.get(op) == "rejected") != (
+                    op in ARGCLASS and local):
                 ctx.note_drift("argument shape %s classified %s but the "
                                "bare operation %s" % (
                                    op, ARGCLASS.get(op),
@@ -774,7 +1045,41 @@ def cfg_space(rng, quick):
                          detail=rng.choice(DETAILS + [rng.randint(0, 400)]),
                          recorder=rng.random() < 0.5, stats=rng.random() < 0.6,
                          debug=rng.random() < 0.3))
+    # the order of switching on and the connection it is done for: the
+    # systematic configurations keep the plain order on every second draw
+    for i, c in enumerate(cfgs):
+        c["plan"] = default_plan(c) if i % 2 == 0 else draw_plan(c, rng)
+        c["conn"] = "none" if rng.random() < 0.5 else rng.choice(
+            X509_SHAPES[1:] + OTHER_SHAPES)
     return cfgs
+
+
+def switch_on_space(rng, quick):
+    """ObserverAttach's universe: Plans x X509Shapes x DetailKinds (quick:
+    one detail kind drawn per plan x shape), plus the constructor arguments
+    the model does not distinguish x sampled plans."""
+    kinds = {"all": lambda: "all", "paths": lambda: "paths",
+             "summary": lambda: "summary",
+             "int": lambda: rng.choice([0, 1, 7, 50, 1000,
+                                        rng.randint(0, 400)])}
+    out = []
+    plans = all_plans()
+    for shape in X509_SHAPES + OTHER_SHAPES:
+        for plan in (plans if shape in X509_SHAPES or not quick
+                     else rng.sample(plans, 20)):
+            for kind in (sorted(kinds) if not quick and
+                         shape in X509_SHAPES
+                         else [rng.choice(sorted(kinds))]):
+                logs = [a for a in plan if a != "rec"]
+                out.append(dict(
+                    logger=("none" if not logs else
+                            logs[-1][4:] if logs[-1] != "log_ctor"
+                            else "all"),
+                    ctor_logger=rng.choice(["api", "http", "all"]),
+                    detail=kinds[kind](), recorder="rec" in plan,
+                    stats=rng.random() < 0.3, debug=False,
+                    plan=plan, conn=shape))
+    return out
 
 
 def signature(ev, inf, clauses):
@@ -833,11 +1138,28 @@ def run(ctx):
                        "reply truncated at max_len bytes, then decoded"),
                       ("ObserverImplLegacyTimer.cfg",
                        "stop_timer needs a numeric server response time"),
+                      ("ObserverImplLegacyUnbound.cfg",
+                       "an operation binds the variable of its finally "
+                       "block only after its own argument validation"),
                       ("ObserverImplLegacyToyaml.cfg",
                        "record() converts with a toyaml() that raises "
                        "TypeError for every type outside its list (plain "
                        "float, non-list iterables, rejected arguments)")):
         r = ctx.tlc("ObserverImpl", cfg, must_pass=False, count=False,
+                    label="must fail: " + what)
+        if r.violated is None:
+            raise vlib.MachineryError("%s did not fail" % cfg)
+        sens.append("%s violates %s as required (%s)" % (cfg, r.violated, what))
+    ctx.tlc("ObserverAttach", "ObserverAttach.cfg",
+            label="switching the observers on is total and leaves one log "
+            "recorder for every order (plans of up to 3 calls) x x509 shape "
+            "x detail kind")
+    for cfg, what in (("ObserverAttachLegacyBreak.cfg",
+                       "the search for the log recorder stops at the first "
+                       "recorder of the connection"),
+                      ("ObserverAttachLegacyRepr.cfg",
+                       "repr(conn) reads the optional x509 item key_file")):
+        r = ctx.tlc("ObserverAttach", cfg, must_pass=False, count=False,
                     label="must fail: " + what)
         if r.violated is None:
             raise vlib.MachineryError("%s did not fail" % cfg)
@@ -848,7 +1170,9 @@ def run(ctx):
     hists = []
     ops = sorted(o for o in OPS if o not in ARGCLASS)
     plain = ops
-    shaped = sorted(ARGCLASS)
+    shaped = sorted(o for o in ARGCLASS if o not in AUTOCLASS)
+    auto = sorted(AUTOCLASS)
+    auto_rsp = ["ok_ascii", "cimerror", "connerror"]
     cfgs = cfg_space(ctx.rng, quick)
     for i, cfg in enumerate(cfgs):
         if quick:
@@ -864,14 +1188,25 @@ def run(ctx):
             cells += [(o, ctx.rng.choice(ARG_RESPONSES))
                       for o in ctx.rng.sample(
                           shaped, 90 if cfg["recorder"] else 10)]
+            # arguments every operation rejects itself (per signature)
+            cells += [(o, ctx.rng.choice(auto_rsp))
+                      for o in ctx.rng.sample(auto, 30)]
         else:
             cells = [(o, r) for o in plain for r in RESPONSES]
             cells += [(o, r) for o in (
                 shaped if cfg["recorder"] else ctx.rng.sample(shaped, 40))
                 for r in ctx.rng.sample(ARG_RESPONSES,
                                         2 if cfg["recorder"] else 1)]
+            cells += [(o, ctx.rng.choice(auto_rsp)) for o in auto]
         ctx.rng.shuffle(cells)
         hists.append(run_cell_history(ctx, cfg, cells, wd, i))
+    # switching on: every order x every connection shape, then two operations
+    sw = switch_on_space(ctx.rng, quick)
+    for j, cfg in enumerate(sw):
+        cells = [(ctx.rng.choice(plain), ctx.rng.choice(RESPONSES)),
+                 (ctx.rng.choice(auto), ctx.rng.choice(auto_rsp))]
+        hists.append(run_cell_history(ctx, cfg, cells, wd, 20000 + j))
+    ctx.extra["switch_on_histories"] = len(sw)
     # nested operations (provider-issued) under recorder / logging / statistics
     for j, cfg in enumerate(
             [dict(logger="none", detail="all", recorder=True, stats=False,
@@ -960,6 +1295,22 @@ def run(ctx):
             ", ".join(sorted(PAIR_ITERABLES)), REAL_KEYS),
         "exception messages are compared with object addresses (0x...) "
         "masked",
+        "every operation method (%d) has a plain call and, from its "
+        "signature, one variant per required argument (None), count / "
+        "timeout (-1, '10') and flag ('maybe', 2): %d variants "
+        "<Op>.<parameter>~<what>; whether the operation rejects the value "
+        "itself is observed on the bare connection" % (
+            len(BASE_ARGS), len(AUTOCLASS)),
+        "switching on: every plan of ObserverAttach (1..%d calls of rec / "
+        "log_api / log_http / log_all / log_ctor, %d plans) x x509 shapes "
+        "%s (+ sampled plans x %s); each enabling call is an event of phase "
+        "switch_on; activation for future connections is reset right after "
+        "the observed connection is constructed; a second TestClientRecorder "
+        "(documented ValueError) is not generated" % (
+            MAX_PLAN, len(all_plans()), ", ".join(X509_SHAPES),
+            ", ".join(OTHER_SHAPES)),
+        "the bytes sent are those of the operation itself (an operation "
+        "that fails before sending has exchanged none)",
         "after the first rejected event of a history the remaining events "
         "are judged one by one by TLC with the statistics snapshot taken "
         "relative to the previous snapshot of the same operation name",
